@@ -67,9 +67,11 @@ class Oracle:
                 if self.registered(c['name']) and cls in self.model.classes[c['name']].__bases__]
 
     def abstract(self, name):
+        import abc
         import inspect
         cls = self.model.classes[name]
-        return inspect.isabstract(cls) or self.yatiml.util.is_abstract(cls)
+        # the documentation: abstract = has abstract methods, or lists ABC among its bases
+        return inspect.isabstract(cls) or abc.ABC in cls.__bases__
 
     # ---- recognition: which types is this node? ---------------------------------------------------
     def types(self, node, t):
